@@ -24,7 +24,7 @@ class GenError(Exception):
 DROP_ATTRS = ('non_exhaustive', 'derive', 'serde', 'allow', 'inline', 'repr', 'unsafe(no_mangle)', 'no_mangle', 'must_use',
               'cfg_attr', 'doc', 'wasm_bindgen', 'deprecated', 'default')
 HEADER_KW = ('requires', 'ensures', 'decreases', 'returns', 'no_unwind', 'opens_invariants', 'recommends')
-CLAUSE_KW = HEADER_KW + ('exit', 'closure', 'attr', 'loop', 'forlabel', 'after', 'before', 'opt', 'replace', 'outline', 'note', 'entry', 'loopbefore', 'loophead', 'looptail', 'loopend')
+CLAUSE_KW = HEADER_KW + ('exit', 'closure', 'statelift', 'attr', 'loop', 'forlabel', 'after', 'before', 'opt', 'replace', 'outline', 'note', 'entry', 'loopbefore', 'loophead', 'looptail', 'loopend')
 
 
 @dataclass
@@ -399,6 +399,56 @@ class Unit:
                 edits.append(Edit(toks[endk].start, toks[endk].start, ' }', ('spec', tplpath, c[2]), prio=-5))
                 rec.n_hints += 1
                 cnt('closure-contract')
+
+        # R13 (statelift): `RECV.retain(|a, b| BODY)` whose closure assigns ONE captured local VAR (outside the Verus subset) becomes
+        # `HELPER(&mut RECV, &mut VAR, |a, b, vf_st| BODY[VAR := (*vf_st)], GHOST)`: the captured local is passed as an explicit `&mut`
+        # parameter (lambda lifting; HELPER's body is `RECV.retain(|k, v| f(k, v, st))`, so the two forms are beta-equivalent).
+        for c in clauses:
+            if c[0] == 'statelift':
+                mm = re.match(r'`(.*?)`(?:#(\d+))?\s+var\s+`(.*?)`\s+helper\s+`(.*?)`\s+header\s+`(.*?)`\s+ghost\s+`(.*?)`\s*$', c[1], re.S)
+                if not mm:
+                    raise GenError('%s:%d bad statelift directive' % (tplpath, c[2]))
+                old, ordn, var, helper, header, ghost = mm.groups()
+                hits = list(flex_regex(old).finditer(verbatim))
+                if ordn is not None:
+                    hits = hits[int(ordn):int(ordn) + 1]
+                if len(hits) != 1:
+                    self.hints_dropped.append('%s :: %s: statelift anchor `%s` matches %d times' % (rel, selector, old, len(hits)))
+                    continue
+                h = hits[0]
+                mtext = verbatim[h.start():h.end()]
+                pr = mtext.find('.retain(')
+                bar = mtext.find('|', pr)
+                if pr < 0 or bar < 0:
+                    raise GenError('%s:%d statelift anchor must be `RECV.retain(|params|`' % (tplpath, c[2]))
+                recv = mtext[:pr].strip()
+                a0 = s_off + h.start()
+                hend = s_off + h.end()
+                k = item.start
+                while k < item.end and toks[k].start < hend:
+                    k += 1
+                body_first = k
+                endk = None
+                while k < item.end:
+                    t = toks[k]
+                    if t.text in ('(', '[', '{') and k in src.br:
+                        k = src.br[k] + 1
+                        continue
+                    if t.text in (',', ')', ']', '}', ';'):
+                        endk = k
+                        break
+                    k += 1
+                if endk is None or toks[endk].text != ')':
+                    self.hints_dropped.append('%s :: %s: statelift `%s`: end of the retain call not found' % (rel, selector, old))
+                    continue
+                edits.append(Edit(a0, a0 + pr + len('.retain('), '%s(&mut %s, &mut %s, ' % (helper, recv, var), ('spec', tplpath, c[2]), prio=5))
+                edits.append(Edit(a0 + bar, hend, header + ' {', ('spec', tplpath, c[2]), prio=5))
+                for j in range(body_first, endk):
+                    if toks[j].kind == 'ident' and toks[j].text == var and not (j > 0 and toks[j - 1].text == '.'):
+                        edits.append(Edit(toks[j].start, toks[j].end, '(*vf_st)', None))
+                edits.append(Edit(toks[endk].start, toks[endk].start, ' }, ' + ghost, ('spec', tplpath, c[2]), prio=-5))
+                rec.n_hints += 1
+                cnt('R13-statelift')
 
         for k in range(item.start, item.end):
             t = toks[k]
